@@ -925,7 +925,9 @@ func mangle(c context, templateName string) string {
 	if c.attr.split {
 		s += "_attrNameSplit"
 	}
-	if c.state == stateAttr && c.attr.ambiguousValue {
+	if c.attr.ambiguousValue {
+		// (Also before the value has begun: branches may differ in whether they are still
+		// in the attribute of the call site.)
 		s += "_ambiguousValue"
 	}
 	if class := valuePrefixClass(c); class != "" {
@@ -954,8 +956,9 @@ func openPrefix(c context, class string) string {
 	switch {
 	case strings.HasPrefix(class, "unsafePrefix"), strings.HasPrefix(class, "partialValue"):
 		return v
-	case containsWhitespaceOrControlPattern.MatchString(v) || containsWhitespaceOrControlPattern.MatchString(html.UnescapeString(v)):
-		// Refused in front of every action in a URL.
+	case class != "" && (containsWhitespaceOrControlPattern.MatchString(v) || containsWhitespaceOrControlPattern.MatchString(html.UnescapeString(v))):
+		// Refused in front of every action in a URL. (In a style value white space is
+		// ordinary, and the end of the text is what counts.)
 		return " "
 	}
 	if m := endsWithCharRefPrefixPattern.FindString(v); len(m) > 1 {
@@ -970,7 +973,9 @@ func openPrefix(c context, class string) string {
 // or part of an enumerated value. It returns "" where the text makes no difference.
 func valuePrefixClass(c context) string {
 	class := valuePrefixKind(c)
-	if class == "" && !(c.state == stateAttr && !c.attr.ambiguousValue && styleAttrVal(c)) {
+	if class == "" && !(c.state == stateAttr && styleAttrVal(c)) {
+		// (A style value is checked for an open character reference at its end even if
+		// conditional branches make it ambiguous.)
 		return ""
 	}
 	if open := openPrefix(c, class); open != "" {
@@ -1025,10 +1030,16 @@ func valuePrefixKind(c context) string {
 					return "partialValue"
 				}
 			case sc.isURLorTrustedResourceURL():
-				decoded := html.UnescapeString(c.attr.value)
+				// A character reference that the text leaves open at its end is left out: its
+				// "#" is no fragment, and what it will stand for is not known yet.
+				v := c.attr.value
+				v = v[:len(v)-len(endsWithCharRefPrefixPattern.FindString(v))]
+				decoded := html.UnescapeString(v)
 				switch {
 				case c.attr.value == "":
 					class = "urlStart"
+				case v == "":
+					return "unsafePrefix"
 				case sc == sanitizationContextTrustedResourceURL:
 					if !safehtmlutil.IsSafeTrustedResourceURLPrefix(decoded) {
 						return "unsafePrefix"
